@@ -22,6 +22,8 @@
 (*                second drain goroutine starts while the call still runs; *)
 (*   SplitNames   the hub registers as "hub.stored" / "hub.deleted"        *)
 (*                (seeded C15h): two lanes, a delete overtakes its store;  *)
+(*   DropBeyond   a lane holds a bounded number of waiting calls and drops  *)
+(*                the oldest beyond it (seeded C16i): events are lost;      *)
 (*   SharedBatch  drain takes the whole queue and empties it by re-slicing *)
 (*                (seeded C15f): calls emitted meanwhile overwrite calls   *)
 (*                of the batch that have not run.                          *)
@@ -29,7 +31,8 @@
 EXTENDS Naturals, Sequences, FiniteSets
 
 CONSTANTS Msgs,          \* message ids; each is announced "stored" and later perhaps "deleted"
-          PerEvent, RetireEarly, SplitNames, SharedBatch
+          PerEvent, RetireEarly, SplitNames, SharedBatch,
+          DropBeyond     \* 0: the lanes are unbounded (the code); n > 0: a lane holds at most n waiting calls, the oldest is dropped (seeded C16i)
 
 Ev(k, m) == [k |-> k, m |-> m]
 Lanes == IF SplitNames THEN {"hub.stored", "hub.deleted"} ELSE {"hub"}
@@ -56,7 +59,7 @@ Emit(e) ==
     /\ IF PerEvent
        THEN free' = free \cup {e} /\ UNCHANGED <<queue, running, batch>>
        ELSE /\ LET l == LaneOf(e) IN
-                 /\ queue' = [queue EXCEPT ![l] = Append(@, e)]
+                 /\ queue' = [queue EXCEPT ![l] = IF DropBeyond > 0 /\ Len(@) >= DropBeyond THEN Append(Tail(@), e) ELSE Append(@, e)]
                  /\ running' = [running EXCEPT ![l] = TRUE]
                  (* SharedBatch: the append goes into the array the batch still points at *)
                  /\ batch' = IF SharedBatch /\ batch[l] # <<>> /\ Len(queue[l]) + 1 <= Len(batch[l])
